@@ -11,6 +11,7 @@ package mcrt
 import (
 	"fmt"
 	"os"
+	"sort"
 	"runtime/debug"
 	"strings"
 	"time"
@@ -503,6 +504,26 @@ func (s *Sched) timeDriven(t *thread) bool {
 	return false
 }
 
+// wakeOf is the earliest virtual time at which a time-driven thread can proceed.
+func (s *Sched) wakeOf(t *thread) time.Time {
+	o := t.pend
+	switch o.kind {
+	case opSleep:
+		return o.wake
+	case opRecv:
+		return o.ch.wake
+	case opSelect:
+		var best time.Time
+		for _, c := range o.cases {
+			if c.ch != nil && !c.send && s.timerPending(c.ch) && (best.IsZero() || c.ch.wake.Before(best)) {
+				best = c.ch.wake
+			}
+		}
+		return best
+	}
+	return s.now
+}
+
 func (s *Sched) enabled(t *thread) bool {
 	if t.done || t.pend == nil {
 		return false
@@ -907,11 +928,15 @@ func (s *Sched) run(body func()) *X {
 			}
 		}
 		normal := len(en)
+		// threads waiting for time: earliest wake first (discrete-event order)
+		var timed []*thread
 		for _, t := range s.threads {
 			if s.enabled(t) && s.timeDriven(t) {
-				en = append(en, t)
+				timed = append(timed, t)
 			}
 		}
+		sort.SliceStable(timed, func(i, j int) bool { return s.wakeOf(timed[i]).Before(s.wakeOf(timed[j])) })
+		en = append(en, timed...)
 		if len(en) == 0 {
 			allDone := true
 			for _, t := range s.threads {
